@@ -217,6 +217,34 @@ Section Tree.
     | Ok lv => Ok (M_h_observe lv probes)
     | Err e => Err e
     end.
+  (* IndexHierarchy.level_drop(1) (index_hierarchy.py:1624-1640): the labels of the second depth of all
+     outermost groups are concatenated into one new root Index (duplicates -> ErrorInitIndex) and the
+     grand-children become its targets AS THEY ARE -- their offsets stay relative to their old parents *)
+  Definition lv_labels (lv : level) : list C := match lv with LLeaf _ l => l | LNode _ l _ => l end.
+  Definition lv_targets (lv : level) : list level := match lv with LLeaf _ _ => [] | LNode _ _ tg => tg end.
+
+  Definition M_level_drop1 (lv : level) : res level :=
+    match lv with
+    | LLeaf _ _ => Err "NotImplementedError"
+    | LNode _ _ tg =>
+        let labels := flat_map lv_labels tg in
+        if nodupb ceqb labels then
+          Ok (match flat_map lv_targets tg with
+              | [] => LLeaf 0 labels
+              | gts => LNode 0 labels gts
+              end)
+        else Err "ErrorInitIndex"
+    end.
+
+  Definition M_level_drop1_obs (labs : list label) (probes : list label) : res hobs :=
+    match M_from_labels labs with
+    | Err e => Err e
+    | Ok lv => match M_level_drop1 lv with
+               | Ok lv' => Ok (M_h_observe lv' probes)
+               | Err e => Err e
+               end
+    end.
+
 End Tree.
 
 Arguments TLeaf {C}. Arguments TNode {C}. Arguments LLeaf {C}. Arguments LNode {C}.
@@ -228,4 +256,4 @@ Arguments M_from_labels {C}. Arguments flatten {C}. Arguments leaf_loc {C}. Argu
 Arguments M_h_contains {C}. Arguments lv_contains {C}.    
      
     
-Arguments M_h_observe {C}. Arguments M_from_labels_obs {C}.
+Arguments M_h_observe {C}. Arguments lv_labels {C}. Arguments lv_targets {C}. Arguments M_level_drop1 {C}. Arguments M_level_drop1_obs {C}. Arguments M_from_labels_obs {C}.
